@@ -102,8 +102,9 @@ class QGauss(object):
         # integrals), possibly with another npts
         xxi, wii = self.xxi, self.wii
 
-        x1 = xvals[0]
-        x2 = xvals[1]
+        # end points may be numpy scalars of any type (float32, small ints)
+        x1 = float(xvals[0])
+        x2 = float(xvals[1])
 
         f1 = (x2 - x1) / 2.0
         f2 = (x2 + x1) / 2.0
@@ -123,6 +124,11 @@ class QGauss(object):
         self.setup(npts=npts)
         if self.npts is None:
             raise ValueError("Set npts on construction or in this call")
+
+        # work in double precision whatever the type of the data (float32
+        # rounds, small and unsigned ints wrap); also accepts sequences
+        xvals = numpy.asarray(xvals, dtype="f8")
+        yvals = numpy.asarray(yvals, dtype="f8")
 
         x1 = xvals.min()
         x2 = xvals.max()
@@ -238,10 +244,10 @@ class QGauss2(object):
         if len(xrng) != 2 or len(yrng) != 2:
             raise ValueError("xrng and yrng should be 2-element")
 
-        x1 = xrng[0]
-        x2 = xrng[1]
-        y1 = yrng[0]
-        y2 = yrng[1]
+        x1 = float(xrng[0])
+        x2 = float(xrng[1])
+        y1 = float(yrng[0])
+        y2 = float(yrng[1])
 
         xf1 = (x2 - x1) / 2.0
         xf2 = (x2 + x1) / 2.0
